@@ -219,6 +219,16 @@ class Prog:
         return False
 
 
+def module_private(fn):
+    """visible only inside its own module (or a parent module below the crate root): the kind of helper that is introduced,
+    renamed, inlined and split freely"""
+    v = fn.get('vis') or ''
+    if not v.startswith('Restricted('):
+        return False
+    m = re.search(r'~ (\w+)\[[0-9a-f]+\](.*?)\)\)$', v)
+    return bool(m and m.group(2))       # `Restricted(crate root)` = pub(crate) is not private
+
+
 def callee_path(term):
     c = term.get('callee')
     if not c:
